@@ -183,7 +183,9 @@ Definition write_field (env : enum_env) (t : fty) : outcome fieldw :=
                   end)
                  (Some (XKey f)) lst
                  (match e with Some e => Some (key_ext e) | None => None end)))
-  | TFloat f64 l =>
+  | TFloat f64 rules l =>
+      if rules then Err "TODO: float rules not implemented"
+      else
       Ok (FW (if f64 then KdDouble else KdFloat) None (Some XFloat)
             (with_arm (if f64 then LDouble else LFloat) l) None)
   | TDate r l =>
@@ -191,20 +193,33 @@ Definition write_field (env : enum_env) (t : fty) : outcome fieldw :=
       Ok (FW KdDate None (match r with Some r => Some (XDate (Some r)) | None => None end) (with_arm LDate l) None)
   | TDecimal r l =>
       Ok (FW KdDecimal None (match r with Some r => Some (XDecimal (Some r)) | None => None end) (with_arm LDecimal l) None)
-  | TTimestamp l => Ok (FW KdTimestamp None (Some XTimestamp) (with_arm LTimestamp l) None)
+  | TTimestamp r l =>
+      (* "None Implemented": whatever the rules say, an empty TimestampRules *)
+      Ok (FW KdTimestamp (match r with Some _ => only_ty (CTimestamp NoUb NoLb) | None => None end)
+            (Some XTimestamp) (with_arm LTimestamp l) None)
   | TAny od ts l => Ok (FW KdAny None (Some (XAny od ts)) (with_arm LAny l) None)
-  | TObject fl => Ok (FW KdMsgObject None (Some (XObject fl)) None None)
-  | TOneof l => Ok (FW KdMsgOneof None (Some XOneof) (with_arm LOneof l) None)
+  (* object / oneof rules: an empty (buf.validate.field), nothing of the rules in it *)
+  | TObject fl r =>
+      Ok (FW KdMsgObject (match r with Some _ => Some (C false None) | None => None end) (Some (XObject fl)) None None)
+  | TOneof rules l =>
+      Ok (FW KdMsgOneof (if rules then Some (C false None) else None) (Some XOneof) (with_arm LOneof l) None)
   end.
 
 (* ---- buildProperty --------------------------------------------------------- *)
+(* repeated.items / map.values: the item's FieldConstraints as it is (also when it has no type) *)
+Definition item_tyc (v : option constraint) : option tyc :=
+  match v with
+  | Some c => Some (match c_ty c with Some t => t | None => CEmpty end)
+  | None => None
+  end.
+
 Definition wrap_array (r : option arr_rules) (sf : option str) (w : fieldw) : fieldw :=
   FW (fw_kind w)
      (if is_some (fw_val w) || is_some r
       then only_ty (CRep (match r with Some r => ar_min r | None => None end)
                          (match r with Some r => ar_max r | None => None end)
                          (match r with Some r => ar_uniq r | None => None end)
-                         (match fw_val w with Some c => c_ty c | None => None end))
+                         (item_tyc (fw_val w)))
       else None)
      (Some (XArray sf))        (* the item's (j5.ext.v1.field) is overwritten *)
      (fw_list w) (fw_key w).
@@ -214,7 +229,7 @@ Definition wrap_map (r : option map_rules) (w : fieldw) : fieldw :=
      (if is_some (fw_val w) || is_some r
       then only_ty (CMap (match r with Some r => mr_min r | None => None end)
                          (match r with Some r => mr_max r | None => None end)
-                         (match fw_val w with Some c => c_ty c | None => None end))
+                         (item_tyc (fw_val w)))
       else None)
      None None (fw_key w).
 
